@@ -240,6 +240,8 @@ class Inst:
             relaxed, _ = RefDeser(self.prog, self.opts, self.relax).run(d)
             if (not strict) == valid and (not relaxed) == accepted:
                 return None
+            if (not relaxed) == valid and (not strict) == accepted:
+                return None  # the defect is on the schema side
         if accepted and valid:
             ctx.notes["tag:both-accept"] = True
         if not accepted and not valid:
